@@ -27,8 +27,8 @@ TRUSTED = ['modelled, not verified: CPython int(str) grammar incl. the Unicode 1
            '(Model/PyInt.v; compared with int() on every code point in the thorough tier), dict(headers), '
            'str.partition, hyper-h2 (first HEADERS / trailers / END_STREAM / RST on a closed stream ignored / '
            'GOAWAY), asyncio task cancellation winning over a completed wait, Wrapper semantics',
-           'tools/facts_C02.py (fail-closed ast translator: content-type constants, raised statuses, call '
-           'skeletons of the response path)',
+           'tools/facts_C02.py (fail-closed translator: constants by value, role-level events of an expanded '
+           'walk of the public entry points of the response path)',
            'oracle bit: whether grpc-status-details-bin bytes parse as google.rpc.Status (protobuf)']
 ASSUMPTIONS = ['listeners (RecvInitialMetadata / RecvMessage / RecvTrailingMetadata) only suspend: they do not edit '
                'metadata, interrupt or raise; no deadline, nobody calls cancel(); the transport is never paused',
@@ -660,28 +660,83 @@ def check_ints(ctx, res, strings):
                 res.disagreements.append({'case': {'op': 'int', 's': s}, 'model': m, 'impl': v})
 
 
-def impl_block(stream, hs, codec_on):
-    """what the real helpers make of a block: (st, ct, gs, msg, details, md)"""
+def find_helpers(stream, csub):
+    """The response-checking helpers of client.Stream are private: locate them by what they DO (a synchronous
+    method of one argument that ...), never by name; a role that cannot be found is simply not observed at this
+    level (the end-to-end runs still cover it)."""
+    import inspect
+    from grpclib.const import Status
+    from grpclib.exceptions import GRPCError
+    okct = 'application/grpc+' + csub
+    cands = []
+    for name in dir(type(stream)):
+        if name.startswith('__'):
+            continue
+        f = inspect.getattr_static(type(stream), name, None)
+        if not inspect.isfunction(f) or inspect.iscoroutinefunction(f) or inspect.isasyncgenfunction(f) \
+                or inspect.isgeneratorfunction(f):
+            continue
+        try:
+            params = [p for p in inspect.signature(f).parameters.values()
+                      if p.kind in (p.POSITIONAL_ONLY, p.POSITIONAL_OR_KEYWORD)]
+        except (TypeError, ValueError):
+            continue
+        if len(params) == 2:
+            cands.append(name)
+
+    def probe(name, d):
+        try:
+            return ('ret', getattr(stream, name)(dict(d)))
+        except GRPCError as e:
+            return ('grpc', e.status)
+        except BaseException as e:
+            return ('exc', type(e).__name__)
+
+    roles = {}
+    for name in cands:
+        full = {':status': '200', 'content-type': okct, 'grpc-status': '0'}
+        r_ok = probe(name, full)
+        if r_ok == ('ret', None):
+            no_st = probe(name, {k: v for k, v in full.items() if k != ':status'})
+            no_ct = probe(name, {k: v for k, v in full.items() if k != 'content-type'})
+            if no_st[0] == 'grpc' and no_ct == ('ret', None) and probe(name, dict(full, **{':status': '404'}))[0] == 'grpc':
+                roles.setdefault('status', name)
+            elif no_ct[0] == 'grpc' and no_st == ('ret', None):
+                roles.setdefault('content-type', name)
+        elif r_ok[0] == 'ret' and isinstance(r_ok[1], tuple) and len(r_ok[1]) == 3 and r_ok[1][0] is Status.OK:
+            if probe(name, {':status': '200'})[0] == 'grpc':
+                roles.setdefault('grpc-status', name)
+    return roles
+
+
+def impl_block(stream, hs, codec_on, roles=None):
+    """what the real helpers make of a block: (st, ct, gs, msg, details, md); a component whose helper could
+    not be located is None (not observed)"""
     from grpclib.exceptions import GRPCError
     from grpclib.metadata import decode_metadata
     d = dict(hs)
-    try:
-        stream._raise_for_status(d)
-        st = '200'
-    except GRPCError as e:
-        st = str(e.status.value)
-    try:
-        stream._raise_for_content_type(d)
-        ct = 'ok'
-    except GRPCError as e:
-        ct = ('missing' if 'content-type' not in d else 'bad') + ('' if e.status.value == 2 else '!%d' % e.status.value)
+    roles = roles or {}
+    st = ct = gs = None
+    if 'status' in roles:
+        try:
+            getattr(stream, roles['status'])(d)
+            st = '200'
+        except GRPCError as e:
+            st = str(e.status.value)
+    if 'content-type' in roles:
+        try:
+            getattr(stream, roles['content-type'])(d)
+            ct = 'ok'
+        except GRPCError as e:
+            ct = ('missing' if 'content-type' not in d else 'bad') + ('' if e.status.value == 2 else '!%d' % e.status.value)
     msg = det = None
-    try:
-        status, message, details = stream._process_grpc_status(d)
-        gs = 'valid:%d' % status.value
-        msg, det = message, details
-    except GRPCError as e:
-        gs = ('absent' if 'grpc-status' not in d else 'invalid') + ('' if e.status.value == 2 else '!%d' % e.status.value)
+    if 'grpc-status' in roles:
+        try:
+            status, message, details = getattr(stream, roles['grpc-status'])(d)
+            gs = 'valid:%d' % status.value
+            msg, det = message, details
+        except GRPCError as e:
+            gs = ('absent' if 'grpc-status' not in d else 'invalid') + ('' if e.status.value == 2 else '!%d' % e.status.value)
     try:
         decode_metadata(hs)
         md = 'ok'
@@ -705,23 +760,28 @@ def check_blocks(ctx, res, blocks):
                               + pairs_words(hs)))
     model = ctx.model(lines) if ctx.model_ok else None
     with vloop.session() as loop:
-        streams = {}
+        streams, roles = {}, {}
         for on in (True, False):
             for sub in SUBTYPES:
                 ce = wire.ClientEnd(loop, status_details_codec=ProtoStatusDetailsCodec() if on else None,
                                     codec=JsonSubtypeCodec() if sub == 'json' else None)
                 streams[on, sub] = ce.channel.request('/v.S/M', Cardinality.UNARY_UNARY, bytes, bytes)
+                roles[on, sub] = find_helpers(streams[on, sub], sub)
+                for r in ('status', 'content-type', 'grpc-status'):
+                    if r not in roles[on, sub]:
+                        res.count('hdr:helper-not-located:' + r)
         for i, (hs, codec_on, csub) in enumerate(blocks):
             res.evaluations += 1
             try:
-                st, ct, gs, msg, det, md = impl_block(streams[codec_on, csub], [tuple(p) for p in hs], codec_on)
+                st, ct, gs, msg, det, md = impl_block(streams[codec_on, csub], [tuple(p) for p in hs], codec_on,
+                                                      roles[codec_on, csub])
             except Exception as e:      # a helper raised something that is not a GRPCError
                 res.oracle_failures.append({'case': {'op': 'hdr', 'hs': hs, 'codec': codec_on, 'csub': csub},
                                             'what': 'a response-checking helper raised %s' % type(e).__name__,
                                             'signature': {'kind': 'helper-raised', 'exc': type(e).__name__}})
                 continue
-            res.count('hdr:st=%s' % ('200' if st == '200' else 'non200'))
-            res.count('hdr:gs=' + gs.split(':')[0])
+            res.count('hdr:st=%s' % ('unobserved' if st is None else '200' if st == '200' else 'non200'))
+            res.count('hdr:gs=' + (gs or 'unobserved').split(':')[0])
             res.count('hdr:md=' + md)
             # oracle on the helper level: int() of Python and the spec table
             d = dict((k, v) for k, v in hs)
@@ -730,14 +790,14 @@ def check_blocks(ctx, res, blocks):
             g = py_gs(hs)
             want_gs = g if isinstance(g, str) else 'valid:%d' % g
             want_ct = ct_verdict(d.get('content-type'), csub)
-            res.count('hdr:csub=%s:ct=%s' % (csub, ct.split('!')[0]))
-            if want_ct is not None and (ct == 'ok') != want_ct:
+            res.count('hdr:csub=%s:ct=%s' % (csub, (ct or 'unobserved').split('!')[0]))
+            if ct is not None and want_ct is not None and (ct == 'ok') != want_ct:
                 res.oracle_failures.append({'case': {'op': 'hdr', 'hs': hs, 'codec': codec_on, 'csub': csub},
                                             'what': 'content-type %r %s by a %s codec' % (
                                                 d.get('content-type'), 'accepted' if ct == 'ok' else 'refused', csub),
                                             'signature': {'kind': 'helper-content-type', 'csub': csub,
                                                           'accepted': ct == 'ok'}})
-            if st != want_st or gs != want_gs:
+            if (st is not None and st != want_st) or (gs is not None and gs != want_gs):
                 res.oracle_failures.append({'case': {'op': 'hdr', 'hs': hs, 'codec': codec_on, 'csub': csub},
                                             'what': 'block classified %s/%s, statement says %s/%s' % (
                                                 st, gs, want_st, want_gs),
@@ -746,8 +806,8 @@ def check_blocks(ctx, res, blocks):
                 res.traces += 1
                 w = model[i].split()
                 m_st, m_ct, m_gs, m_msg, m_det, m_md = w
-                ok = (m_st == st and m_ct == ct and m_gs == gs and m_md == md)
-                if ok and gs.startswith('valid:') and gs != 'valid:0':
+                ok = (st in (None, m_st) and ct in (None, m_ct) and gs in (None, m_gs) and m_md == md)
+                if ok and gs is not None and gs.startswith('valid:') and gs != 'valid:0':
                     from harness.svc import uncps
                     want_msg = None if m_msg == 'none' else urllib.parse.unquote(
                         uncps(m_msg[2:] or '-'), encoding='utf-8', errors='replace')
